@@ -2,6 +2,25 @@ HOOK_COMMITS = ["d197d80"]
 NOTES = "All checks are generated-input search (proptest choice sequences, exhaustive small-domain enumeration) against explicit oracles; see DESIGN.md. Exit 2 = inconclusive (build failure / watchdog), never a violation."
 NOT_CLAIMED = {}
 CLAIMED = {
+ "C02": {
+  "technique": "property-based testing: proptest-generated index/map-each/quantifier filters and value expressions against a reference evaluator",
+  "text": "Exploration: grammar-directed well-typed filters over container fields nested to depth 3 ([n], [\"k\"], [*] in every position, bool-array logic, any/all incl. direct application to absent/empty arrays) on 6 generated contexts each, plus star-free value expressions; all three engine evaluation strategies are compared against one independent fold-based reference. Holds on everything explored.",
+  "note": "Trusts harness/src/eval.rs; cases whose outcome the documented rules leave open are skipped and counted as excluded.",
+  "ref": "DESIGN.md section 3, C02",
+ },
+ "C03": {
+  "technique": "property-based testing: generated function-call filters; engine result and observed call log vs. reference evaluator's predicted log",
+  "text": "Exploration: calls to a harness-registered function family (optional parameters, literal/field parameters, nested calls, logical arguments, map-each over arrays and maps, concat, a definition with a per-call context whose every accessor is exercised); for every execution the observed argument vectors, their order and (where fixed) multiplicity are compared with the prediction, and value expressions must obey the static type contract.",
+  "note": "Harness functions are pure and defined once for engine and model; call multiplicity behind short-circuit logic / memoisable arguments is compared as a set.",
+  "ref": "DESIGN.md section 3, C03",
+ },
+ "C04": {
+  "technique": "exhaustive typing matrices + property-based mutated compositions against a reference type checker",
+  "text": "Exploration: complete finite matrices (left type x operator x literal kind, container x index kind, operand kinds x logical operator, quantifier x argument shape, function signature x argument shape) with acceptance expected from the documented rules, and random well-typed compositions with 0-2 type-breaking mutations judged by an independent reference type checker; every accepted input is compiled and executed on 4 contexts (no panic, static type contract, agreement with the reference evaluator).",
+  "note": "Undocumented typings (bare Map(Bool) as logical operand) are only required to be safe; mutated literals come from unambiguous pools.",
+  "ref": "DESIGN.md section 3, C04",
+ },
+
  "C01": {
   "technique": "property-based testing: exhaustive operator table + proptest-generated filters against a reference evaluator",
   "text": "Exploration: every cell of the (type x operator x boundary lhs incl. absent x boundary rhs x nil_ne x optional) table is executed, plus grammar-directed random well-typed scalar filters (precedence chains, not, parentheses) on 8 generated contexts each; engine result and AST JSON compared with an independent reference evaluator / canonical JSON. Holds on everything explored; not a proof.",
